@@ -111,6 +111,7 @@ func New(conn net.Conn, clock *int64) *Peer {
 	p.fr.AllowIllegalReads = true
 	p.enc = hpack.NewEncoder(&p.eb)
 	p.dec = hpack.NewDecoder(4096, func(f hpack.HeaderField) { p.decBuf = append(p.decBuf, f) })
+	p.dec.SetAllowedMaxDynamicTableSize(1 << 22) // scripts may advertise a SETTINGS_HEADER_TABLE_SIZE up to this
 	go p.readLoop()
 	return p
 }
